@@ -1340,11 +1340,18 @@ class Authenticated(BaseClientHandler):
                 # Do an EXPUNGE if there are any messages marked 'Delete'
                 #
                 if self.mbox.sequences.get("Deleted", []):
-                    uid_msg_set = (
-                        list(cmd.msg_set_as_set)
-                        if cmd.uid_command and cmd.msg_set_as_set
-                        else None
-                    )
+                    # `msg_set_as_set` holds message sequence numbers (the
+                    # UIDs that exist, already converted); `expunge()` wants
+                    # UIDs. A UID EXPUNGE that names no existing message
+                    # expunges nothing.
+                    #
+                    uid_msg_set = None
+                    if cmd.uid_command:
+                        uid_msg_set = [
+                            self.mbox.uids[n - 1]
+                            for n in sorted(cmd.msg_set_as_set or [])
+                            if 0 < n <= len(self.mbox.uids)
+                        ]
                     await self.mbox.expunge(uid_msg_set=uid_msg_set)
         finally:
             self.idling = idling
